@@ -10,10 +10,9 @@ CONSTANTS
   Encs = {"json", "msgpack"}
   Auths = {"ok", "fail"}
   WithReload = TRUE
-  Faithful = TRUE
+  Faithful = FALSE
   UpperHexIsClassic = FALSE
-INVARIANTS TypeOK EnvKeyUsesEnvironment ClassicKeyUsesDataset DocumentedShapes NeverWithoutSampler PrefixSeparates ExtractedIsWhatDeciderReads DecisionOfOneTarget
-PROPERTY DecisionFollowsRulesExceptKnown
-ACTION_CONSTRAINT Dump
+INVARIANTS TypeOK EnvKeyUsesEnvironment ClassicKeyUsesDataset DocumentedShapes NeverWithoutSampler PrefixSeparates ExtractedIsWhatDeciderReads DecisionOfOneTarget NoUnknownEnvironmentIngested
+PROPERTY DecisionFollowsRules
 VIEW View
 CHECK_DEADLOCK FALSE
